@@ -1331,11 +1331,19 @@ Theorem replace_code_points cs os ns : scalars cs -> scalars os -> scalars ns ->
   replace (VStr (E cs)) (VStr (E os)) (VStr (E ns)) = Ok (VStr (E (cp_replace cs os ns (-1)))).
 Proof. intros. unfold replace. cbn [str_arg bind]. now rewrite breplace_code_points. Qed.
 
-Theorem replace_count_code_points cs os ns n : scalars cs -> scalars os -> scalars ns -> n <= MaxInt ->
+Theorem replace_count_code_points cs os ns n : scalars cs -> scalars os -> scalars ns -> 0 <= n <= MaxInt ->
   replace_count (VStr (E cs)) (VStr (E os)) (VStr (E ns)) (vint n) = Ok (VStr (E (cp_replace cs os ns n))).
 Proof.
-  intros. unfold replace_count. cbn [str_arg bind]. rewrite int_arg_vint by assumption. cbn [bind].
-  now rewrite breplace_code_points.
+  intros Hc Ho Hn [H0 Hm]. unfold replace_count. cbn [str_arg bind]. rewrite int_arg_vint by assumption. cbn [bind].
+  destruct (Z.ltb_spec n 0); [lia|]. now rewrite breplace_code_points.
+Qed.
+
+(* a negative count is an invalid-value error, as for split *)
+Theorem replace_count_negative s o nw n : n < 0 -> n <= MaxInt ->
+  replace_count (VStr s) (VStr o) (VStr nw) (vint n) = Err ENegativeInteger.
+Proof.
+  intros Hn Hm. unfold replace_count. cbn [str_arg bind]. rewrite int_arg_vint by assumption. cbn [bind].
+  destruct (Z.ltb_spec n 0); [reflexivity|lia].
 Qed.
 
 (* join *)
